@@ -502,6 +502,12 @@ def frequency_axes(repo, rep):
 
 
 def run(repo, rep, tier):
+    rep.rule("R-C13-19", "(shared with C12) coordinate grids built with arange / linspace do not borrow their dtype from file data")
+    rep.rule("R-C13-20", "no zip() in a reader pairs a fixed-length literal with file-derived columns / rows without strict=True (silent truncation of date "
+                         "fields or trailing columns)")
+    from .round7 import grid_dtype_from_data, silent_zip_truncation
+    grid_dtype_from_data(repo, rep, "R-C13-19", prefixes=("wavespectra.input.", "wavespectra.core.swan"))
+    silent_zip_truncation(repo, rep, "R-C13-20", prefixes=("wavespectra.input.", "wavespectra.core.swan"))
     rep.rule("R-C13-18", "(shared with C08) spectra of later TRIAXYS files are re-gridded with ZERO energy outside their own frequency range (np.interp left = right = 0): "
                          "a later file never shows energy at frequencies it does not contain")
     from .c08 import interp_zero_fill as _izf
